@@ -129,7 +129,11 @@ func TestPrograms(t *testing.T) {
 	rapid.Check(t, func(t *rapid.T) {
 		cfg := gen.Config{MaxStmts: rapid.IntRange(3, 9).Draw(t, "size"), MaxDepth: rapid.IntRange(1, 3).Draw(t, "depth"), Funcs: 3, Structs: true, AllowRTE: rapid.IntRange(0, 3).Draw(t, "rte") == 0}
 		prog, feats := gen.Generate(t, cfg)
-		pr := &gen.Printer{FullParens: rapid.IntRange(0, 4).Draw(t, "fullparens") == 0}
+		if rapid.IntRange(0, 3).Draw(t, "main-in-function") > 0 { // holders as locals of a function instead of globals
+			gen.WrapMain(prog)
+			feats["main-in-function"]++
+		}
+		pr := &gen.Printer{FullParens: rapid.IntRange(0, 4).Draw(t, "fullparens") == 0, ParenPrint: rapid.IntRange(0, 7).Draw(t, "paren-print") > 0}
 		src := pr.Program(prog)
 		out := ref.Run(prog)
 		switch {
